@@ -134,7 +134,7 @@ def read_ndjson(path):
         return [json.loads(l) for l in f if l.strip()]
 
 
-def pool(tasks, name, procs=None, timeout_ms=2000, vh=None):
+def pool(tasks, name, procs=None, timeout_ms=2000, vh=None, stream=False):
     """Run tasks through worker processes; returns list of result rows."""
     tf = os.path.join(WORK, f"{name}.tasks.ndjson")
     rf = os.path.join(WORK, f"{name}.results.ndjson")
@@ -144,6 +144,13 @@ def pool(tasks, name, procs=None, timeout_ms=2000, vh=None):
     r = run([vh or VH, "pool", tf, rf, str(procs or NPROC), str(timeout_ms)], timeout=6 * 3600, check=False)
     if r.returncode != 0:
         raise ToolError(f"harness pool failed: {r.stdout[-2000:]}")
+    if stream:
+        def it():
+            with open(rf) as f:
+                for l in f:
+                    if l.strip():
+                        yield json.loads(l)
+        return it()
     rows = read_ndjson(rf)
     return rows
 
